@@ -44,7 +44,7 @@ class InterFlow(Flow):
         return super().edge(node, label, env)
 
     def on_return(self, s, v, env):
-        self.returns = join_any(self.returns, v)
+        self.returns = self.join(self.returns, v)
 
     def eval_name(self, e, env):
         if e.id in env:
